@@ -146,6 +146,11 @@ template void w_use_player<hierarchical_state_machine<boost::msm::back::state_ma
 template void w_use_player<hierarchical_state_machine<boost::msm::back11::state_machine>>();
 template void w_use_player<hierarchical_state_machine<boost::msm::backmp11::state_machine_adapter>>();
 template void w_use_player<hierarchical_state_machine<boost::msm::backmp11::state_machine_adapter, boost::msm::backmp11::favor_compile_time>>();
+// backmp11 with the function_pointer_array dispatch strategy (no base-class triggers: that strategy does not compile with them)
+struct w_fpa_policy : boost::msm::backmp11::favor_runtime_speed { using dispatch_strategy = boost::msm::backmp11::dispatch_strategy::function_pointer_array; };
+struct w_fpa_config : boost::msm::backmp11::state_machine_config { using compile_policy = w_fpa_policy; };
+template <typename FE, typename...> struct w_fpa : boost::msm::backmp11::state_machine<FE, w_fpa_config, w_fpa<FE>> {};
+template void w_use_depth3<w_depth3<w_fpa>>();
 template void w_use_depth3<w_depth3<boost::msm::back::state_machine>>();
 template void w_use_depth3<w_depth3<boost::msm::back::state_machine, boost::msm::back::favor_compile_time>>();
 template void w_use_depth3<w_depth3<boost::msm::back11::state_machine>>();
